@@ -42,6 +42,7 @@ def run(chk, repo):
     dedup(chk, repo)
     bases(chk, repo)
     percpu(chk, repo)
+    decoders(chk, repo)
     values(chk, repo)
     # how many per-CPU values there are (shared with C10): the reader's
     # index range and stride
@@ -155,7 +156,10 @@ def layout_semantic(chk, repo):
     runs = 0
     scalar = set(pool)
     combos = list(itertools.product(pool, repeat=3)) + list(
-        itertools.permutations(["64I", "3H", "BI", "HQ", "B", "Q"], 3))
+        itertools.permutations(["64I", "3H", "BI", "HQ", "B", "Q"], 3)) + [
+        c for c in itertools.permutations(
+            ["5B", "3B", "3H", "I", "H", "Q", "7s"], 3)
+        if any(f in ("5B", "3B", "7s") for f in c)]
     for fa, fb, fc in combos:
         for shadow in ("B", "Q"):
             me, other = Obj(am, {}), Obj(am, {})
@@ -310,6 +314,58 @@ def bases(chk, repo):
     chk.ob("R08.4", A + "ArrayMap.init", "element 0 of the array is looked "
            "up", len(key) == 1, ini, "the map has one element holding all "
            "variables")
+
+
+def decoders(chk, repo, rule="R08.6"):
+    """who may decode: the bytes of an array or hash map are turned into
+    values in one place per map kind (ArrayGlobalVarDesc.unpack,
+    HashGlobalVarDesc.__get__) - which is where the layout (address,
+    format) and the fixed-point scale are applied.  Another function that
+    unpacks bytes itself is allowed only as a helper of these (all its
+    callers are decoders); a second read route - an iterator, a bulk
+    reader - has to go through them."""
+    chk.doc(rule, "one decoder per map kind")
+    allowed = {A + "ArrayGlobalVarDesc.unpack",
+               "ebpfcat.hashmap.HashGlobalVarDesc.__get__"}
+    mods = [repo.module("ebpfcat.arraymap"), repo.module("ebpfcat.hashmap")]
+
+    def decodes(fn):
+        for c in walk_no_nested(fn):
+            if isinstance(c, ast.Call):
+                nm = (dotted(c.func) or "").split(".")[-1]
+                if nm in ("unpack", "unpack_from", "iter_unpack",
+                          "from_bytes") and not (
+                        isinstance(c.func, ast.Attribute) and isinstance(
+                            c.func.value, ast.Name) and c.func.value.id
+                        in ("self",) or isinstance(c.func, ast.Attribute)
+                        and unparse(c.func.value).endswith("descriptor")):
+                    return c
+        return None
+    found = 0
+    funcs = [(func_qual(repo, fn.body[0]), fn)
+             for fn in repo.all_functions(mods)]
+    for q, fn in funcs:
+        c = decodes(fn)
+        if c is None:
+            continue
+        found += 1
+        ok = q in allowed
+        why = "the decoder of its map kind"
+        if not ok:
+            # a helper: every call of it comes from a decoder
+            name = q.split(".")[-1]
+            callers = [q2 for q2, f2 in funcs if f2 is not fn and any(
+                isinstance(x, ast.Call) and (dotted(x.func) or "").split(
+                    ".")[-1] == name for x in walk_no_nested(f2))]
+            ok = bool(callers) and all(q2 in allowed for q2 in callers)
+            why = (f"helper of {sorted(callers)}" if ok else
+                   f"`{unparse(c)[:60]}` decodes map bytes on a route of "
+                   f"its own (called from {sorted(callers) or 'outside'}): "
+                   f"the fixed-point scale and the layout rules established "
+                   f"for the decoder do not hold for it")
+        chk.ob(rule, q, "map bytes are decoded by the map kind's decoder "
+               "only", ok, c, why)
+    chk.floor(rule, "functions that decode map bytes", found, 2)
 
 
 def percpu(chk, repo):
